@@ -14,15 +14,15 @@ PROPS = {
     'C09': ['DISPATCH', 'ACDUAL', 'FINCHK', 'MEMO', 'HASHEQ', 'ORDTOTAL', 'FORWARD', 'ADDRKEY', 'QUEUEENDS', 'CLIOPT', 'FLAGRESET', 'DRAIN', 'ITERINVAL', 'CONGRMATCH', 'REFSTABLE'],
     'C10': ['UNIONCONTRIB', 'PRODUCT', 'PAIRFIELD', 'FINCHK', 'WORKLIST', 'DRAIN', 'PARAMPATH', 'COW', 'FORWARD', 'NFAOPS', 'UNIONTRANSL', 'ACCRET', 'SCRATCHRESET', 'COLLECTALL', 'NULLPARAM', 'REINDEXALL', 'ALPHASRC'],
     'C11': ['COW', 'CLEARALL', 'HASHCONS', 'CACHELIFE', 'ALPHASRC', 'DISPATCH', 'COPYALL', 'STATICSTATE'],
-    'C13': ['TEXT', 'LOADROLE', 'PARAMPATH', 'PAIRFIELD', 'FORWARD', 'SCRATCHRESET', 'NOTHROW', 'COLLECTALL', 'DRAIN', 'BACKTRACK'],
+    'C13': ['TEXT', 'LOADROLE', 'PARAMPATH', 'PAIRFIELD', 'FORWARD', 'SCRATCHRESET', 'NOTHROW', 'COLLECTALL', 'DRAIN', 'BACKTRACK', 'COPYALL', 'REFCNT'],
     'C12': ['COW', 'HASHCONS', 'ITER', 'NONEMPTY', 'CLEARALL', 'PARAMPATH', 'USEDSTATES', 'COPYALL', 'ORDTOTAL'],
     'C14': ['KIND', 'COW', 'FORWARD', 'SCRATCHRESET', 'HASHCONS', 'REINDEXALL', 'ALPHASRC', 'SIZEEQ'],
     'C15': ['FINCHK', 'WORKLIST', 'DRAIN', 'KIND', 'HASHCONS', 'COW', 'FORWARD', 'COUNTGUARD', 'ACCRET', 'KEPTRULES', 'COLLECTALL', 'ALPHASRC'],
     'C16': ['INSETLABEL', 'COPYALL', 'STALESIZE', 'QUEUEENDS', 'DRAIN', 'COLLECTALL', 'LOOPBOUND', 'INIT', 'ITERINVAL'],
     'C17': ['CANON', 'TEXT', 'BACKTRACK', 'COPYALL'],
     'C18': ['REFCNT', 'CANON', 'COPYALL'],
-    'C19': ['KIND', 'SIMMAP', 'DISPATCH', 'SIBLING', 'ACDUAL', 'ORDTOTAL', 'FRAMERESET', 'HASHEQ', 'MEMO', 'KEYFIELDS', 'ADDRKEY', 'QUEUEENDS', 'CLIOPT', 'FLAGRESET', 'INSETLABEL', 'PREPASS', 'CONGRMATCH', 'USEDSTATES', 'REFSTABLE'],
-    'C20': ['INIT', 'FALLOFF', 'PAIRFIELD', 'COPYALL', 'FRAMERESET', 'CACHELIFE', 'LOOPBOUND', 'ERASER', 'STALESIZE', 'ITER', 'NONEMPTY', 'USEMOVE', 'INSETLABEL', 'GENPRE', 'REFCNT', 'NULLPARAM', 'ITERINVAL', 'REFSTABLE'],
+    'C19': ['KIND', 'SIMMAP', 'DISPATCH', 'SIBLING', 'ACDUAL', 'ORDTOTAL', 'FRAMERESET', 'HASHEQ', 'MEMO', 'KEYFIELDS', 'ADDRKEY', 'QUEUEENDS', 'CLIOPT', 'FLAGRESET', 'INSETLABEL', 'PREPASS', 'CONGRMATCH', 'USEDSTATES', 'REFSTABLE', 'TUPLEPOS'],
+    'C20': ['INIT', 'FALLOFF', 'PAIRFIELD', 'COPYALL', 'FRAMERESET', 'CACHELIFE', 'LOOPBOUND', 'ERASER', 'STALESIZE', 'ITER', 'NONEMPTY', 'USEMOVE', 'INSETLABEL', 'GENPRE', 'REFCNT', 'NULLPARAM', 'ITERINVAL', 'REFSTABLE', 'SIZEDINDEX', 'CANON'],
 }
 
 # (property, rule) -> regex on the repo-relative file: only sites in matching files are attributed to that
@@ -64,7 +64,7 @@ FILTER = {
     ('C09', 'REFSTABLE'): r'macrostate_cache|explicit_finite', ('C04', 'REFSTABLE'): r'transl_weak|explicit_tree_transl',
     ('C14', 'SIZEEQ'): r'explicit_tree',
     ('C03', 'COPYALL'): r'explicit_tree', ('C11', 'COPYALL'): r'explicit_', ('C12', 'COPYALL'): r'explicit_tree',
-    ('C17', 'COPYALL'): r'mtbdd/', ('C18', 'COPYALL'): r'mtbdd/',
+    ('C17', 'COPYALL'): r'mtbdd/', ('C18', 'COPYALL'): r'mtbdd/', ('C13', 'COPYALL'): r'include/vata/(explicit_|bdd_|symbolic|util/two_way_dict|util/aut_description)|aut_core\.hh',
     ('C02', 'ALPHASRC'): r'explicit_tree_(isect|union)', ('C03', 'ALPHASRC'): r'explicit_tree_(useless|unreach)', ('C05', 'ALPHASRC'): r'explicit_tree_(useless|unreach)|explicit_tree_aut_core', ('C10', 'ALPHASRC'): r'explicit_finite', ('C15', 'ALPHASRC'): r'explicit_tree_(candidate|unreach)', ('C14', 'ALPHASRC'): r'explicit_tree_aut_core',
     ('C16', 'COPYALL'): r'explicit_lts|splitting_relation|shared_counter|shared_list|caching_allocator|smart_set|binary_relation', ('C16', 'STALESIZE'): r'explicit_lts|splitting_relation|shared_counter|shared_list|caching_allocator|smart_set|binary_relation', ('C16', 'QUEUEENDS'): r'explicit_lts|splitting_relation|shared_counter|shared_list|caching_allocator|smart_set|binary_relation', ('C16', 'DRAIN'): r'explicit_lts|splitting_relation|shared_counter|shared_list|caching_allocator|smart_set|binary_relation', ('C16', 'COLLECTALL'): r'explicit_lts|splitting_relation|shared_counter|shared_list|caching_allocator|smart_set|binary_relation', ('C16', 'LOOPBOUND'): r'explicit_lts|splitting_relation|shared_counter|shared_list|caching_allocator|smart_set|binary_relation', ('C16', 'INIT'): r'explicit_lts|splitting_relation|shared_counter|shared_list|caching_allocator|smart_set|binary_relation', ('C16', 'ITERINVAL'): r'explicit_lts|splitting_relation|shared_counter|shared_list|caching_allocator|smart_set|binary_relation',
     ('C11', 'DISPATCH'): r'explicit_tree_incl|explicit_finite_incl',
@@ -77,11 +77,14 @@ FILTER = {
     ('C02', 'ACCRET'): r'explicit_tree_(isect|union)', ('C03', 'ACCRET'): r'explicit_tree_(useless|unreach)', ('C05', 'ACCRET'): r'explicit_tree_aut_core\.cc|explicit_tree_(useless|unreach)', ('C08', 'ACCRET'): r'bdd_', ('C10', 'ACCRET'): r'explicit_finite', ('C15', 'ACCRET'): r'explicit_tree_candidate',
     ('C02', 'UNIONTRANSL'): r'explicit_tree', ('C08', 'UNIONTRANSL'): r'bdd_', ('C10', 'UNIONTRANSL'): r'explicit_finite',
     ('C14', 'COW'): r'explicit_tree', ('C14', 'KIND'): r'explicit_tree|explicit_finite|bdd_',
-    ('C19', 'KIND'): r'explicit_tree',
+    ('C19', 'KIND'): r'explicit_tree', ('C19', 'TUPLEPOS'): r'sim',
 }
 
 # (property, rule) -> regex on the obligation id: only those clauses of the rule are attributed to the property
 OBFILTER = {
+    ('C20', 'CANON'): r'^C3$',   # memo tables hold raw, uncounted node pointers: kept across applications they hand out freed nodes
+    ('C13', 'REFCNT'): r'^R8$',   # the loaders build MTBDDs: a release function called outside the release discipline frees a node that is still referenced (memory corruption while loading)
+    ('C13', 'COPYALL'): r'^complete$',
     ('C18', 'CANON'): r'^C3$',
     ('C02', 'ALPHASRC'): r'^result$', ('C03', 'ALPHASRC'): r'^result$', ('C05', 'ALPHASRC'): r'^result$', ('C10', 'ALPHASRC'): r'^result$', ('C15', 'ALPHASRC'): r'^result$', ('C14', 'ALPHASRC'): r'^result$',   # the result is over the operand's alphabet (its language is stated over symbol names)
     ('C11', 'DISPATCH'): r'^early-verdict$',   # a shortcut on physical sharing makes the verdict depend on how an operand was created      # memo tables hold raw, uncounted node pointers: they must not outlive one application
